@@ -11,8 +11,8 @@ Open Scope N_scope.
 Theorem C03_tables_ok : utab_ok U0 = true.
 Proof. vm_compute. reflexivity. Qed.
 
-(* for every schema of the modelled sub-language (typed scalars with integer bounds in either draft
-   style, string lengths, string enums, [T, null], arrays with item counts, maps, anyOf, objects with
+(* for every schema of the modelled sub-language (typed scalars with integer and number bounds in either
+   draft style, string lengths, string enums, [T, null], arrays with item counts, maps, anyOf, objects with
    required / additionalProperties false, nested to any depth), every naming option vector that keeps
    aliases, both constraint styles and every JSON value: valid under the schema implies accepted by
    the generated model *)
